@@ -3,8 +3,8 @@
 (A) spec/ZNode.tla: the node's persist / apply / acknowledge / snapshot / purge / restart
     pipeline as three interleaved processes with Crash between any two steps; TLC exhausts
     the 1-replica view and the "1 of 3" views (<= 4 operations, <= 2 snapshots, 1 crash).
-    The faithful 1-replica model refutes AckedDurable (processReady publishes before it
-    persists); the counterexample is replayed on the real code (stage isolate-s2).
+    The old publish-before-persist order (repaired as 8d8be68) is kept as a spec mutant that
+    refutes AckedDurable; its counterexample is replayed on the real code (strict stage isolate-s2).
 (B) harness crashsim + cmd/vnode: real data-node processes die at every named hook on the
     persist / apply / snapshot / restart / purge path (k-th hit), at random instants, during
     restart and during a snapshot install; they are restarted on the same directory; after a
@@ -55,11 +55,13 @@ def model_stage(ctx, stats):
             open(p, "w").write(src)
             files = {p: cfg}
         return cfg, V.tlc(ctx, "MC_ZNode", cfg, workers=workers, timeout=to, tag="mc-" + cfg[:-4], files=files)
+    # MC_ZNode_single_safe / leader / follower: the faithful model (SafePublish, code since 8d8be68);
+    # MC_ZNode_single_acked: the old publish-before-persist order as a spec mutant that must be refuted
     if ctx.quick():
-        items = [("MC_ZNode_single.cfg", 4, 600), ("q3_MC_ZNode_single_safe.cfg", 2, 600), ("q3_MC_ZNode_leader.cfg", 2, 600),
+        items = [("MC_ZNode_single_safe.cfg", 4, 600), ("q3_MC_ZNode_leader.cfg", 2, 600),
                  ("q3_MC_ZNode_follower.cfg", 2, 600), ("MC_ZNode_single_acked.cfg", 1, 300)]
     else:
-        items = [("MC_ZNode_single.cfg", 4, 900), ("MC_ZNode_single_safe.cfg", 4, 900), ("MC_ZNode_leader.cfg", 4, 1200),
+        items = [("MC_ZNode_single_safe.cfg", 4, 900), ("MC_ZNode_leader.cfg", 4, 1200),
                  ("MC_ZNode_single_acked.cfg", 1, 300), ("MC_ZNode_follower.cfg", 6, 1800), ("MC_ZNode_single_deep.cfg", 4, 900)]
     res = dict(V.parallel(one, items, n=len(items)))
     for cfg, _, _ in items:
@@ -72,7 +74,7 @@ def model_stage(ctx, stats):
         ctx.skipped += 1
         ctx.notes.append("MC_ZNode_single_acked did not finish (environment); isolate-s2 not derived in this run")
         stats["model_runs"] = runs
-        return res["MC_ZNode_single.cfg"], []
+        return res["MC_ZNode_single_safe.cfg"], []
     if acked.violated != "AckedDurable":
         raise V.Inconclusive("MC_ZNode_single_acked: expected the faithful 1-replica model to refute AckedDurable, got %s"
                              % (acked.violated or acked.error or "no error"))
@@ -103,7 +105,7 @@ def model_stage(ctx, stats):
                 raise V.Inconclusive("spec mutant %s was not refuted by %s (got %s)" % (m, MUTANTS[m], r.violated or r.error))
             stats["spec_mutants_refuted"].append(m)
     stats["model_runs"] = runs
-    return res["MC_ZNode_single.cfg"], labels
+    return res["MC_ZNode_single_safe.cfg"], labels
 
 
 def hold_script(labels):
@@ -412,10 +414,8 @@ def run(ctx):
         weak_ack_rule_on_single_replica=weak,
         checker_cmd="tlc -config ZNodeTrace.cfg ZNodeTrace (ZR_TRACE=<trace>, workers 1, StateDeque)",
     )
-    V.write_evidence(ctx, "model_checking", cov, assumptions=[
+    assumptions = [
         "crash model = process kill (SIGKILL of the data-node process); power loss / torn sectors are C05's business",
-        "1-replica groups on the unrepaired tree: an answer counts as durable only once a later-invoked operation has been "
-        "answered too (known finding c06-single-replica-ack-before-persist); the isolate stage checks the strict reading",
         "the black-box trace cannot show the pipeline's internal steps; it is validated against the observable contract "
         "(Recoverable, AckedDurable, NoPhantom) that TLC establishes for the pipeline model ZNode",
         "3-replica groups: the restarted node rejoins the live group (raft re-sends what it lost); its state is compared "
@@ -423,4 +423,10 @@ def run(ctx):
         "after the barrier an unanswered operation of a dead process is assumed not to take effect any more",
         "mem and pebble engines; values of the ZOps model only (2 string keys, 2 hash fields, 1 list)",
         "wall-clock time-outs (a node that does not come up or never settles) are skipped and counted, never judged",
-    ])
+    ]
+    if weak:
+        assumptions.append("1-replica groups: an answer counts as durable only once a later-invoked operation has been answered too "
+                           "(known finding c06-single-replica-ack-before-persist is open)")
+    else:
+        assumptions.append("every answered operation must survive the death of the only replica (strict since 8d8be68)")
+    V.write_evidence(ctx, "model_checking", cov, assumptions=assumptions)
